@@ -444,7 +444,60 @@ def first_diff(exp, got):
     return "expected %d items, got %d" % (len(e), len(g))
 
 
-def run_file_cases(res, cases, tag, timeout=900, release=False):
+def fst_model_tie(res, paths, tag, model_ok, seed=1, what="generated"):
+    """wellen's fst.rs against its model on FST files: the harness reads each file with the dependency fst-reader directly
+    (hierarchy entry stream, time table, value-change callbacks = the inputs of fst.rs) and through wellen; the extracted
+    model (Model/FstHier.v: read_hierarchy, convert_timescale, load_signals' time cursor and dispatch; Model/FstLoad.v:
+    SignalWriter) is run on the former and must print what wellen reports."""
+    if not model_ok or not paths:
+        return
+    for cmd, mcmd in (("fsthier", "fsth"), ("fstsig", "fstl")):
+        lines = ["%s %s" % (cmd, p) + ("" if cmd == "fsthier" else " %d" % (seed + 7 * k)) for k, p in enumerate(paths)]
+        outs = core.run_cases(core.WV_DEBUG, lines, tag + cmd, timeout=900)
+        mlines, idx, loaded = [], [], []
+        for k, o in enumerate(outs):
+            if " || " not in o:
+                kl = "fst-model-%s-%s" % (cmd, o.split(" ")[0][:12].lower())
+                res.distribution[kl] = res.distribution.get(kl, 0) + 1
+                continue
+            raw, got = o.split(" || ", 1)
+            f = dict(x.split("=", 1) for x in raw.split(" "))
+            # the extracted model works on lists (the builder model is quadratic in the number of declarations)
+            if (cmd == "fsthier" and f["entries"].count(";") > 700) or (cmd == "fstsig" and f["cbs"].count(";") > 40000):
+                res.distribution["fst-model-%s-too-large-for-the-model" % cmd] = res.distribution.get("fst-model-%s-too-large-for-the-model" % cmd, 0) + 1
+                continue
+            if cmd == "fsthier":
+                mlines.append("fsth 1 %s %s %s %s" % (f["entries"], f["date"], f["version"], f["exp"]))
+            else:
+                # String values reach the SignalWriter through String::from_utf8_lossy (std, not modelled: A-utf8); Python's
+                # 'replace' follows the same substitution of maximal subparts
+                handles = dict(zip(f["ids"].split(","), f["tpes"].split(",")))
+                cbs = []
+                for cb in ([] if f["cbs"] == "-" else f["cbs"].split(";")):
+                    t, h, v = cb.split(":")
+                    if handles.get(h) == "s" and v[0] == "s" and v != "s_":
+                        v = "s" + bytes.fromhex(v[1:]).decode("utf-8", "replace").encode("utf-8").hex()
+                    cbs.append("%s:%s:%s" % (t, h, v))
+                mlines.append("fstl 1 %s %s %s %s" % (f["tt"], f["ids"], f["tpes"], ";".join(cbs) if cbs else "-"))
+            idx.append(k)
+            loaded.append(got)
+        mouts = core.run_cases(core.MODEL_RUN, mlines, tag + mcmd, timeout=900)
+        for k, got, ml, mo in zip(idx, loaded, mlines, mouts):
+            res.evaluations += 1
+            kl = "fst-model-%s-%s" % (cmd, what)
+            res.distribution[kl] = res.distribution.get(kl, 0) + 1
+            a, b = got, mo
+            if cmd == "fsthier" and " sx=? " in mo:
+                # a scope declared twice continues the first one: calls and scopes are not one to one, skip the locators
+                a = " ".join(x for x in a.split(" ") if not x.startswith("sx="))
+                b = " ".join(x for x in b.split(" ") if not x.startswith("sx="))
+            if a != b:
+                res.mismatches.append((ml[:6000], "wellen on %s: %s" % (lines[k], got[:3000]), "model of fst.rs: " + mo[:3000]))
+            else:
+                res.nontrivial.add((cmd, what, hash(ml)))
+
+
+def run_file_cases(res, cases, tag, timeout=900, release=False, with_files=None):
     """cases: list of {fmt, spec, opts, full?, tt?, key, klass}; every file is written, loaded and compared with the
     listing computed from the design"""
     d = prepare_dir(tag)
@@ -465,6 +518,8 @@ def run_file_cases(res, cases, tag, timeout=900, release=False):
                                    "a generated %s file does not load as the design it encodes (%s)" % (c["fmt"], first_diff(ex, got))))
     if len(res.samples) < 8 and cases:
         res.samples.append({"file-case": lines[0], "expected": exps[0][:400]})
+    if with_files:
+        with_files([ln.split(" ")[1] for ln in lines])
     shutil.rmtree(d, ignore_errors=True)
     return outs
 
